@@ -503,6 +503,25 @@ def symbolize {σ τ} (env : Env σ τ) (mode : Str) (sources : Sources) (p : Pr
     { profile := { p with functions := fs, locations := r.2.2.1, mappings := r.2.2.2.1 },
       err := r.2.2.2.2, wrapped := r.2.1.wrapped, s := r.1.1, t := r.1.2 }
 
+/-! ### the fetch path around `Symbolize` (`fetchProfiles`, fetch.go:80-85)
+
+After the sources are fetched (and merged, when there are several) the driver symbolizes the
+profile, calls `RemoveUninteresting` and `unsourceMappings`, and nothing else before the validity
+re-check. `prune` is `Profile.Prune` with the compiled drop/keep-frames expressions (regexp: a
+parameter; only reached for a non-empty `drop_frames`), `isAbsURL` is `url.Parse(m.File).IsAbs()`
+for a file without volume name. -/
+
+def unsourceMappings (isAbsURL : Str → Bool) (ms : List Mapping) : List Mapping :=
+  ms.map fun m => if m.buildID = [] ∧ isAbsURL m.file = true then { m with file := [] } else m
+
+/-- `none` = `Symbolize` returned an error and the fetch fails. -/
+def fetchStep {σ τ} (env : Env σ τ) (prune : Profile → Profile) (isAbsURL : Str → Bool)
+    (mode : Str) (sources : Sources) (p : Profile) (s : σ) (t : τ) : Option Profile :=
+  let r := symbolize env mode sources p s t
+  if r.err then none else
+  let q := if r.profile.dropFrames = [] then r.profile else prune r.profile
+  some { q with mappings := unsourceMappings isAbsURL q.mappings }
+
 /-! ### a concrete line parser (instance of `Symz.parseLine`)
 
 `symbolzRE = (0x[[:xdigit:]]+)\s+(.*)`, leftmost match; `\s` = `[\t\n\f\r ]`; `.` excludes `\n`. -/
